@@ -759,9 +759,12 @@ func notNil(v reflect.Value) bool {
 }
 
 func (st *Runtime) isSet(node Node) (ok bool) {
+	scope, context, content := st.scope, st.context, st.content
 	defer func() {
 		if r := recover(); r != nil {
-			// something panicked while evaluating node
+			// something panicked while evaluating node; the panic skipped the
+			// restore code of the constructs it unwound (e.g. inside exec())
+			st.scope, st.context, st.content = scope, context, content
 			ok = false
 		}
 	}()
